@@ -15,7 +15,7 @@ RULE = ("Valid designs from the C01 generator (4 in 10 with all designer-chosen 
         "1-4 designer objects (internal signals, ports incl. ports of sub-modules, instances, bundle instances, no-connect names) "
         "are renamed onto those names or their '_' / '__' variants, in varying declaration orders and construction styles. Oracle: "
         "elaboration raises, or the package is closed (unique names) and isomorphic to the reference interpreter's circuit of the "
-        "renamed design. Non-trivial = at least one designer name equals a name the elaborator generated in that module for the "
+        "renamed design, with every module exporting as many ports as it declares (scalar ports plus leaves of bundle ports). Non-trivial = at least one designer name equals a name the elaborator generated in that module for the "
         "un-renamed design; distinct by canonical spec hash.")
 ASSUME = ["renaming designer objects consistently leaves the circuit unchanged (reference interpreter is name-agnostic)",
           "the top module's bundle ports are made internal so that top-level port names are all designer-chosen",
@@ -119,6 +119,15 @@ def eval_case(case):
         import vlsir.circuit_pb2 as vckt
         pkg = vckt.Package(); pkg.ParseFromString(v["pkg"])
         v["cross_kind"] = []
+        v["port_counts"] = []
+        for pm in pkg.modules:
+            short = pm.name.split(".")[-1]
+            for k, m in enumerate(spec["modules"]):
+                nm = m["name"]
+                if nm and (short == nm or short.startswith(nm + "(")):
+                    want = sum(1 for sg in m["sigs"] if sg[2] != "sig") + sum(len(model.bundle_leaves(spec, b[1])) for b in m["bundles"] if b[2])
+                    if len(pm.ports) != want:
+                        v["port_counts"].append((pm.name, want, [p.signal for p in pm.ports]))
         for pm in pkg.modules:
             both = sorted({x.name for x in pm.signals} & {i.name for i in pm.instances})
             if both:
@@ -128,6 +137,13 @@ def eval_case(case):
         dup = [c for c in v.get("closure", []) if c[0] in ("dup_signal", "dup_instance", "dup_port", "dup_module")]
         for mname, names in v.get("cross_kind", []):
             dup.append(("cross_kind", "%s: %s name both a signal and an instance" % (mname, names)))
+        if v.get("port_counts") and not dup and v["status"] == "agree":
+            # a member of a bundle port that nothing inside the module uses can vanish without changing the flat circuit:
+            # the module's interface shows it
+            mname, want, got = v["port_counts"][0]
+            v["status"] = "fail"
+            v["sig"] = "module_lost_or_gained_a_port"
+            v["detail"] = "%s declares %d scalar / flattened ports, exported with %d: %s" % (mname, want, len(got), got)
         if dup:
             v["status"] = "fail"
             v["sig"] = "duplicate_name"
